@@ -7,8 +7,9 @@ SPEC = dict(
     harness=['h_seq.c'],
     # second configuration: counts/capacities near the top of the index type against a ledger allocator (harness/h_huge.c)
     configs=lambda tier: [dict(name='default'), dict(name='huge', harness=['h_huge.c'], hflags=['-DVF_HUGE=4'], nworkers=2),
+                          dict(name='arena', harness=['h_arena.c'], hflags=['-DVF_ARENA=4'], nworkers=2),  # operands at exact distances from the storage block (arena allocator through a_alloc)
                           dict(name='clang', libcc='clang', nworkers=4, of=8), dict(name='o2', libflavour='san-o2', libdrop=['-fno-strict-aliasing'], nworkers=4, of=8)],  # library compiled by clang: half of the cases
-    parallel_configs=4,
+    parallel_configs=5,
     level='exploration',
     memcheck_cases={'thorough': 1600},
     rule='SMALL case class: seeded histories of 30-80 operations on two vectors or two fixed buffers (element sizes 0,1,2,3,4,7,8,12,16,24,33; buffer capacities 0..40; half of the containers live in caller-provided storage via ctor/dtor instead of new/die): '
@@ -46,10 +47,22 @@ SPEC = dict(
          'push_back/sort_back, push_sort in both capacity states with smallest / largest / present / random key, accessors at 0, num-1, num, mem-1, mem, 255..65537, SIZE_MAX and '
          'negative offsets, swap of the large vector with a small one of another element size (worked on under the other handle, swapped back), refusal of push/insert/store/push_sort by the '
          'exactly full buffer (growable buffer: at every count 2^k-3..2^k+1). Pushes between stations (1/128 push_fore/insert/remove/pull) are checked in O(1) (slot returned, count, capacity). '
+         'ARENA configuration (harness/h_arena.c, 2000 histories quick / 20000 thorough of 30-60 operations on two vectors or two growable buffers, element sizes 1,2,4,8,12,16,24,33,100): '
+         'a_alloc is a bump allocator over one region the harness owns byte by byte (blocks aligned to 16 / 8 / the element size, growth in place or always moving, released and moved-from blocks '
+         'poisoned; all drawn per case); before every call that takes a caller operand (push_sort key, search key, store source block, the element the caller stores into the slot returned by '
+         'push_back/push_fore/insert) the operand is placed directly behind the CURRENT storage block (distance 0), one element further, directly in front of it, one element further in front, '
+         'inside a released former block of the same container, or outside the arena; half of the growing calls start from the exactly-full state, so the block moves while the operand stays behind '
+         'the old one. After every call: count <= capacity, capacity x size (+ header) <= bytes granted, count and every byte vs the array model, sorted-insert clauses, returned pointer inside the live '
+         'block, operand bytes unchanged, and every byte of the region outside the live blocks (gaps, released blocks, operands) equal to its shadow copy; at the end every block released. '
          'distinct_nontrivial = distinct (container kind, operation, element-size class, index class(es), capacity state) combinations judged, plus for the large class '
          '(kind, operation, element-size class, floor(log2 count), operation class).',
     exhaustive={},
-    require=['form/a_iterate', 'form/A_ITERATE', 'form/a_iterate_reverse', 'form/A_ITERATE_REVERSE', 'sorts-and-search-on-empty-container', 'huge-vec-setm', 'huge-vec-setn', 'huge-buf-new', 'huge-buf-setm', 'state-compared-with-model', 'returned-pointer-inside-owned-storage', 'removed-element-intact-and-past-live-range',
+    require=['arena-state-compared-with-model', 'arena-non-owned-bytes-verified', 'arena-caller-operand-unchanged', 'arena-operand-directly-behind-storage', 'arena-operand-directly-in-front',
+             'arena-operand-one-element-behind-storage', 'arena-operand-one-element-in-front', 'arena-operand-in-released-former-block', 'arena-growth-moved-block-with-adjacent-operand',
+             'arena-growth-in-place', 'arena-push_sort-exactly-full-key-directly-behind', 'arena-push_sort-moved-block-with-adjacent-key', 'arena-store-growth-with-adjacent-source',
+             'arena-push-moved-block-with-adjacent-element-source', 'arena-search-finds-iff-present', 'arena-sorted-insert-keeps-order-and-elements', 'arena-buf-refuses-when-full',
+             'arena-returned-pointer-inside-live-block',
+             'form/a_iterate', 'form/A_ITERATE', 'form/a_iterate_reverse', 'form/A_ITERATE_REVERSE', 'sorts-and-search-on-empty-container', 'huge-vec-setm', 'huge-vec-setn', 'huge-buf-new', 'huge-buf-setm', 'state-compared-with-model', 'returned-pointer-inside-owned-storage', 'removed-element-intact-and-past-live-range',
              'buf-refuses-when-full', 'remove-path-full', 'remove-path-spare', 'sort_fore-path-full', 'sort_fore-path-spare',
              'sort_back-path-full', 'sort_back-path-spare', 'push_sort', 'sorted-insert-keeps-order-and-elements', 'sort-sorted-permutation',
              'search-finds-iff-present', 'erase-out-of-range-reports-obounds', 'erase-destroys-each-erased-element-once', 'setz-rederives-capacity',
@@ -83,6 +96,8 @@ SPEC = dict(
         'a_buf_setm is only called with mem >= current count (shrinking below the count is not a documented operation)',
         'which slot a removed element is parked in is not prescribed (only: owned, past the live range, bytes intact)',
         'the position of a sorted-insert among equal keys is not prescribed (any position that keeps the order is accepted)',
+        'arena configuration: caller operands never overlap live storage; the library may write anywhere inside its own live blocks (spare capacity included) and nowhere else; '
+        'blocks obtained through a_alloc hold arbitrary bytes (0xA5) and may be aligned to the element size only when no header structure is allocated',
         'large case class: the capacity of a vector is only required to be >= the count and never to shrink on push/setm/setn (the growth factor is not judged); '
         'a_buf_setm is not applied to a buffer living in caller storage'],
     level_text='Lock-step reference model over seeded operation histories with explicit index classes (incl. SIZE_MAX sentinels) and controlled capacity '
@@ -90,5 +105,5 @@ SPEC = dict(
                'indices are unbounded, so sampling with class coverage is the reachable level; evidence lists how often each (function, path) ran.',
     level_note='trusted: the array model and the id model of the large case class in harness/h_seq.c (semantics taken from vec.h/buf.h documentation); '
                'libc qsort for ranking the two sides in the permutation check of sort; default allocator (malloc/realloc) under ASan',
-    technique='seeded operation histories (small, and large through 2^16..2^20 elements) against lock-step models, every accessor / call / loop macro form judged, ledger allocator with a capacity-vs-granted-bytes invariant and CPU-time watchdog for counts near SIZE_MAX, ASan/UBSan/LeakSanitizer on exact-size blocks',
+    technique='seeded operation histories (small, and large through 2^16..2^20 elements) against lock-step models, every accessor / call / loop macro form judged, ledger allocator with a capacity-vs-granted-bytes invariant and CPU-time watchdog for counts near SIZE_MAX, arena allocator with caller operands at exact distances from the storage block and a shadow copy of every non-owned byte, ASan/UBSan/LeakSanitizer on exact-size blocks',
 )
